@@ -44,7 +44,8 @@ type c17Bind struct {
 	queueNo  int  // 0 = main, k = "q<k>"
 	explicit bool // queueNo 0 written as `queue: main` instead of leaving the key out
 	crontab  string
-	sync     bool // executeHookOnSynchronization
+	sync     bool   // executeHookOnSynchronization
+	ns       string // namespace a kubernetes binding watches ("" = the namespace of the case)
 }
 
 type c17Hook struct {
@@ -68,7 +69,11 @@ func c17WriteHook(dir, ns string, h *c17Hook, logFile string) error {
 			ql = fmt.Sprintf("  queue: %s\n", c17QueueName(b.queueNo))
 		}
 		if b.kube {
-			fmt.Fprintf(&kube, "- name: %s\n  apiVersion: v1\n  kind: ConfigMap\n  namespace:\n    nameSelector:\n      matchNames: [\"%s\"]\n  executeHookOnSynchronization: %v\n%s", b.name, ns, b.sync, ql)
+			bns := ns
+			if b.ns != "" {
+				bns = b.ns
+			}
+			fmt.Fprintf(&kube, "- name: %s\n  apiVersion: v1\n  kind: ConfigMap\n  namespace:\n    nameSelector:\n      matchNames: [\"%s\"]\n  executeHookOnSynchronization: %v\n%s", b.name, bns, b.sync, ql)
 		} else {
 			fmt.Fprintf(&sched, "- name: %s\n  crontab: \"%s\"\n%s", b.name, b.crontab, ql)
 		}
@@ -370,10 +375,12 @@ func c17OperatorKube(r *Run, c *Case, rng *Rng) {
 	}
 	// h1 hangs in the middle of its run (2 of 3 cases), triggered through one of its bindings
 	midRun := rng.Chance(66)
+	busyQueue := -1
 	if midRun {
 		before := startsOf(hooks[0])
 		_ = os.WriteFile(filepath.Join(dir, "block-h1"), nil, 0o644)
 		b := hooks[0].binds[rng.Intn(len(hooks[0].binds))]
+		busyQueue = b.queueNo
 		ok := true
 		if b.kube {
 			_, ok = change(0)
@@ -404,7 +411,9 @@ func c17OperatorKube(r *Run, c *Case, rng *Rng) {
 		}
 	}
 
+	t0 := time.Now()
 	op.Shutdown() // returns when every queue shows "stop" or after WaitQueuesTimeout (shortened by the suite)
+	took := time.Since(t0)
 
 	// A queue that shows "stop" has no hook process any more (the handler runs the hook synchronously and
 	// the worker sets the status after its last handler returned): whatever line that queue's hooks write
@@ -516,6 +525,10 @@ func c17OperatorKube(r *Run, c *Case, rng *Rng) {
 	c.Oracle(fmt.Sprintf("weakstop q=%s ev=%s", joinInts(qs), joinStrs(ev)))
 	c.Oracle(fmt.Sprintf("terminated q=%s ev=%s", joinInts(qs), joinStrs(ev)))
 	c.Oracle(fmt.Sprintf("latecluster late=%s seen=%s", joinStrs(late), joinStrs(seenObjs)))
+	if midRun {
+		// h1 was inside its handler for the whole call: the wait for the queues cannot have ended before its timeout
+		c.Oracle(fmt.Sprintf("shutdownwaits busy=%d early=%v", busyQueue, took < shell_operator.WaitQueuesTimeout))
+	}
 	c.Nontrivial = true
 	if midRun {
 		c.Note("kind:whole-operator-cluster-events-shutdown-mid-run")
